@@ -22,7 +22,9 @@ ASSUMPTIONS = [
     "Deltas tolerance: 1e-9 (float64) / 1e-3 (float32) relative to max(1, max|x|); integer dtypes within 1 of the "
     "real-valued result (truncation); the order-0 block must equal the input exactly",
     "Stack: values are copies, compared exactly; the result dtype of Stack is not part of the statement",
-    "Stack needs >= 2 dimensions (time and feature axes must differ) and num_vectors >= 1; pad modes None/edge/constant",
+    "Stack needs >= 2 dimensions (time and feature axes must differ) and num_vectors >= 1; pad modes None/edge/constant from own code, and "
+    "wrap/mean/maximum/minimum/reflect/symmetric/linear_ramp with numpy.pad applied to the whole time axis as the reference (documented: "
+    "'the axis in time will be padded on the right ... numpy.pad'), on non-empty tensors",
     "with in_place=True only the returned value is checked",
     "Deltas with one NaN / +-inf entry in float data (a quarter of the cases): only entries whose reference value - the "
     "recursion's local weighted sum over the padded vector - is finite are compared; entries the non-finite sample reaches are unconstrained",
@@ -57,6 +59,10 @@ def make_tensor(shape, dtype, seed, scale, layout="C"):
     return x
 
 
+# numpy.pad modes beyond edge / constant whose padding depends on frames before the incomplete run
+STACK_NUMPY_MODES = ("wrap", "mean", "maximum", "minimum", "reflect", "symmetric", "linear_ramp")
+
+
 def _same(a, b):
     return a.shape == b.shape and a.dtype == b.dtype and np.array_equal(a, b, equal_nan=a.dtype.kind == "f")
 
@@ -89,7 +95,9 @@ def deltas_cases(draw):
         "pad_mode": draw(st.sampled_from(modes)),
         "dtype": draw(st.sampled_from(["f64", "f64", "f32", "i32", "i16"])),
         "seed": draw(st.integers(0, 2 ** 32 - 1)),
-        "scale": draw(st.sampled_from([1.0, 1.0, 100.0, 1e-3, 3e4])),
+        # 2**1020 (2**120 in single precision): finite data whose deltas are finite too (|delta| <= max|x|) but
+        # that leaves no headroom for un-normalised intermediates
+        "scale": draw(st.sampled_from([1.0, 1.0, 100.0, 1e-3, 3e4, 2.0 ** 1020])),
         "layout": draw(st.sampled_from(LAYOUTS)),
         "in_place": draw(st.sampled_from([False, False, False, True])),
         # one non-finite entry in the data (float dtypes): frames out of the filters' reach keep finite deltas
@@ -112,8 +120,10 @@ def check_deltas(case):
     if T < 1 or (mode == "reflect" and T < 2) or mode not in post_ref.PAD_MODES + post_ref.NUMPY_PAD_MODES:
         raise Discard()
     scale = case.get("scale", 1.0)
-    if case["dtype"] in ("i16", "i32") and scale < 1:
+    if case["dtype"] in ("i16", "i32") and (scale < 1 or scale > 1e6):
         scale = 100.0
+    if case["dtype"] == "f32" and scale > 1e30:
+        scale = 2.0 ** 120
     x = make_tensor(shape, case["dtype"], case["seed"], scale, case.get("layout", "C"))
     poke = case.get("poke") if (x.dtype.kind == "f" and x.size) else None
     if poke:
@@ -227,7 +237,7 @@ def stack_cases(draw):
         "time_axis": tpos - ndim if draw(st.booleans()) else tpos,
         "axis": fpos - ndim if draw(st.booleans()) else fpos,
         "num_vectors": n,
-        "pad_mode": draw(st.sampled_from([None, None, "edge", "constant"])),
+        "pad_mode": draw(st.sampled_from([None, None, "edge", "constant", "edge", "constant"] + list(STACK_NUMPY_MODES))),
         "dtype": draw(st.sampled_from(["f64", "f32", "i32", "i16"])),
         "seed": draw(st.integers(0, 2 ** 32 - 1)),
         "layout": draw(st.sampled_from(LAYOUTS)),
@@ -244,8 +254,10 @@ def check_stack(case):
     ta, fa, n, mode = case["time_axis"], case["axis"], case["num_vectors"], case["pad_mode"]
     if ndim < 2 or not -ndim <= ta < ndim or not -ndim <= fa < ndim or ta % ndim == fa % ndim or n < 1:
         raise Discard()
-    if mode not in (None, "edge", "constant"):
+    if mode not in (None, "edge", "constant") + STACK_NUMPY_MODES:
         raise Discard()
+    if mode in STACK_NUMPY_MODES and (shape[ta] < (2 if mode == "reflect" else 1) or 0 in shape):
+        raise Discard()  # numpy.pad cannot extend an empty axis (and treats a single frame under 'reflect' as legacy edge padding)
     x = make_tensor(shape, case["dtype"], case["seed"], 100.0, case.get("layout", "C"))
     x0 = x.copy()
     in_place = bool(case.get("in_place", False))
@@ -273,8 +285,17 @@ def check_stack(case):
         "layout: shape {} time_axis={} axis={} num_vectors={} pad_mode={} gives shape {}, expected {}",
         tuple(shape), ta, fa, n, mode, out.shape, ref.shape,
     )
-    if out.size and not np.array_equal(out, ref):
-        bad = np.argwhere(np.asarray(out) != ref)[0]
+    def unequal(a, b):
+        """Boolean mask of the entries of a that differ from b."""
+        if mode in ("mean", "linear_ramp") and a.size:
+            # computed values (a mean, a ramp): equal up to the rounding of the summation order / the integer cast
+            lim = 1.0 if x0.dtype.kind == "i" else (1e-4 if x0.dtype == np.float32 else 1e-10) * max(1.0, float(np.max(np.abs(x0.astype(np.float64)))))
+            return np.abs(a.astype(np.float64) - b.astype(np.float64)) > lim
+        return np.asarray(a) != np.asarray(b)
+
+    neq = unequal(out, ref)
+    if out.size and bool(np.any(neq)):
+        bad = np.argwhere(neq)[0]
         idx = tuple(int(i) for i in bad)
         require(
             False, "value at {} is {!r}; frame layout out[t, i*F+f] = in[t*n+i, f] gives {!r}",
@@ -288,7 +309,7 @@ def check_stack(case):
         s3 = call("Stack", Stack, n, time_axis=ta % 2, **({} if mode is None else {"pad_mode": mode}))
         out3 = call("Stack.apply on the (T,F,1) lift", s3.apply, x3, axis=fa % 2)
         require(
-            out3.shape == ref.shape + (1,) and np.array_equal(out3[:, :, 0], ref),
+            out3.shape == ref.shape + (1,) and not bool(np.any(unequal(out3[:, :, 0], ref))),
             "2-D and N-D code paths disagree: 2-D shape {}, lifted 3-D shape {}", out.shape, out3.shape,
         )
 
